@@ -100,8 +100,50 @@ def strip_macro_calls(body, name, replace):
     return "".join(out)
 
 
+def strip_cfg_debug(body, profile, log_rules):
+    """R-cfgdbg: `#[cfg(debug_assertions)] <stmt | block | field-init>` is compiled out of release builds -> removed in the rel profile"""
+    tag = "#[cfg(debug_assertions)]"
+    if profile == "dbg" or tag not in body:
+        return body
+    out = []
+    i = 0
+    while True:
+        mask = L.code_mask(body)
+        k = body.find(tag, i)
+        while k >= 0 and not mask[k]:
+            k = body.find(tag, k + 1)
+        if k < 0:
+            break
+        j = k + len(tag)
+        while j < len(body) and body[j].isspace():
+            j += 1
+        if body[j] == "{":
+            e = L.match_close(body, mask, j) + 1
+        else:
+            depth = 0
+            e = j
+            while e < len(body):
+                c = body[e]
+                if mask[e]:
+                    if c in "([{":
+                        depth += 1
+                    elif c in ")]}":
+                        if depth == 0:
+                            break
+                        depth -= 1
+                    elif c in ";," and depth == 0:
+                        e += 1
+                        break
+                e += 1
+        log_rules.add("R-cfgdbg `#[cfg(debug_assertions)]` item removed (rel profile: compiled out of release builds)")
+        body = body[:k] + body[e:]
+        i = k
+    return body
+
+
 def apply_rules(body, profile, log_rules):
     ctr = [0]
+    body = strip_cfg_debug(body, profile, log_rules)
 
     def rm(args, semi):
         log_rules.add("R-mac0 vprintln! removed")
@@ -179,6 +221,17 @@ def splice(sig, body, spec, loops, ghosts, ret, make_pub, rules):
         if len(found) != max(o for o, _ in loops) and any(o > len(found) for o, _ in loops):
             raise Undecided("loop count changed")
     for (where, needle, nth, text) in ghosts:
+        if where in ("inloop", "endloop"):
+            found = L.find_loops(body, mask)
+            o = int(needle)
+            if o < 1 or o > len(found):
+                raise Undecided("lost anchor: loop #%d not found for %s ghost" % (o, where))
+            if where == "inloop":
+                inserts.append((found[o - 1][1] + 1, "\n" + text.rstrip("\n") + "\n"))
+            else:
+                e = L.match_close(body, mask, found[o - 1][1])
+                inserts.append((e, "\n" + text.rstrip("\n") + "\n"))
+            continue
         if where == "afterloop":
             found = L.find_loops(body, mask)
             o = int(needle)
@@ -259,7 +312,7 @@ def render(vu):
                 elif l2.startswith("//@ghost "):
                     flush(); buf = []; cur = "ghost"
                     g = dict(tok.split("=", 1) for tok in shlex.split(l2)[1:])
-                    where = "after" if "after" in g else ("before" if "before" in g else ("afterloop" if "afterloop" in g else "at"))
+                    where = next(w for w in ("after", "before", "afterloop", "inloop", "endloop", "at") if w in g)
                     cur_meta = (where, g[where], int(g.get("nth", "1")))
                 else:
                     buf.append(l2)
